@@ -117,6 +117,14 @@ Definition c09_sched_ops (V V' : rview) (st : ostep) : list rop :=
   let cancelled := filter (fun x => negb (bound x) && negb (moved x) && outstanding V (r_app x) (r_key x)) removed in
   let stale := filter (fun x => negb (bound x) && negb (moved x) && negb (outstanding V (r_app x) (r_key x))) removed in
   let req_nodes := nodup N.eq_dec (map r_node (filter (fun x => req_on (r_node x)) cancelled)) in
+  (* a reservation given up by the wait timeout and taken again for the same ask on the same node within the cycle: the
+     views do not change (the partition counter grows, the cancellation does not decrement it); the reserve-time
+     predicate call (allocate = false, answered yes) for a pair that is reserved before and after tells it *)
+  let again := filter (fun x => memR x (rv_app V') &&
+                                existsb (fun p => match p with (k, n, alloc, ok) =>
+                                                    (k =? r_key x) && (n =? r_node x) && negb alloc && ok end) (st_preds st))
+                      (rv_app V) in
+  flat_map (fun x => [RCancel (r_app x) (r_key x); RReserve (r_app x) (r_key x) (r_node x) true]) again ++
   map (fun n => RCancelRequired n true) req_nodes ++
   map (fun x => RCancel (r_app x) (r_key x)) (filter (fun x => negb (req_on (r_node x))) cancelled) ++
   map (fun x => RUnreserve (r_app x) (r_key x)) stale ++
